@@ -80,6 +80,7 @@ func RunC09(c *Ctx, r *Report) {
 	r.NotDecided = append(r.NotDecided, "that two parties compute the same shared secret (a theorem about Exp, not about this code)", "that exponents differ from call to call beyond 'drawn from crypto/rand on every call'")
 
 	// rule 1: constants
+	c.registryRules(r, prefix+"registry.", "security/dh")
 	rule1 := prefix + "prime-constants"
 	r.Rule(rule1, "Group2PrimeString / Group14PrimeString equal the RFC-formula primes (1024 bit, c=129093; 2048 bit, c=124476); generators are 2", 4)
 	for _, g := range []struct {
